@@ -4,7 +4,7 @@
    caller = base caller of one column; the implementation's is [fun os => fst (call pc os)]. *)
 From Coq Require Import ZArith List Bool QArith.
 Import ListNotations.
-From SCMO Require Import Lib.PyInt Model.C15 Proofs.C15_a Proofs.C15_b Proofs.C15_c Proofs.C15_d Proofs.C15.
+From SCMO Require Import Lib.PyInt Model.C15 Proofs.C15_a Proofs.C15_b Proofs.C15_c Proofs.C15_d Proofs.C15_e Proofs.C15.
 Open Scope Z_scope.
 
 (* the aligned (M) positions of all records, in order, are exactly the sorted distinct reference
@@ -105,6 +105,15 @@ Theorem C15_call_argmax_decl : forall pc : Z -> Q, (forall q, (0 <= pc q /\ pc q
                  (L pc os k1 == L pc os k2)%Q /\ forall k, is_key os k -> (L pc os k <= L pc os k1)%Q).
 Proof. exact call_decl. Qed.
 Print Assumptions C15_call_argmax_decl.
+
+(* a column in which every observation shows the same base b (not N), each more likely right than
+   wrong, is called b *)
+Theorem C15_call_unanimous : forall pc : Z -> Q, (forall q, (0 <= pc q /\ pc q < 1)%Q) ->
+  forall os b, os <> [] -> b <> baseN ->
+  Forall (fun o => fst o = b /\ (1 # 2 < pc (snd o))%Q) os ->
+  fst (call pc os) = b.
+Proof. exact call_unanimous. Qed.
+Print Assumptions C15_call_unanimous.
 
 (* non-vacuity of the call: agreement, conflict at unequal and at equal quality, one weak observation *)
 Example C15_call_example :
